@@ -183,7 +183,7 @@ def gen_case(rnd, prop, tier):
         import itertools
         pairs = [list(c) for c in itertools.combinations(attrs, 2)]
         wl = None if rnd.random() < 0.5 else rnd.sample(pairs, rnd.randint(1, len(pairs)))
-        params = dict(rounds=rnd.choice([None, 1, 2, 3, 5]), noise=rnd.choice(['gaussian', 'gaussian', 'laplace']), bounded=bounded,
+        params = dict(rounds=rnd.choice([None, 1, 2, 3, 5]), noise=rnd.choice(['gaussian', 'gaussian', 'laplace', 'normal']), bounded=bounded,
                       alpha=rnd.choice([0.9, 0.9, 0.5, 0.2]), workload=wl, maxsize_mb=rnd.choice([25, 25, 25, 1e-3, 6e-4, 3e-4]))
     elif mech == 'adagrid':
         tg = []
